@@ -336,6 +336,8 @@ class Typer(object):
         if head == 'AssignmentNode':
             rty = self.expr(b[2])
             _, lb = _unwrap(b[1])
+            while str(lb[0]) == 'IndexAccessNode':      # a[i]…[j] = v declares the array variable a
+                _, lb = _unwrap(lb[1])
             if str(lb[0]) == 'VariableAccessNode' and self.lookup(lb[1]) is None:
                 c = self.class_of_type(rty)
                 self.declare(lb[1], c if c else ('trn', rty))
@@ -406,7 +408,10 @@ def run_impl(case):
     text = text_of(case)
     tree = rig.parse(text)
     enc = oal_sexp.encode(tree, positions=True)
-    m, h, _ = rig.translate(case['home'], text, case.get('via_model', False))
+    try:
+        m, h, _ = rig.translate(case['home'], text, case.get('via_model', False))
+    except G.OutOfDomain as e:
+        return {'obs': [Sym('out-of-domain'), str(e)], 'd_fail': [], 'nontrivial': False, 'stats': {'out_of_domain': 1}}
     fails = []
 
     def fail(sig, what):
